@@ -24,4 +24,7 @@ def knownInserts : List (String × String) :=
   [("core/outlier.nodeBreakers[*][*]", "core/outlier.addNodeBreakerOfResource"),
    ("core/outlier.nodeBreakers[*]", "core/outlier.onResourceRuleUpdate")]
 
+/-- the methods whose body must run at most once per object however many goroutines call them -/
+def requiredOnce : List String := ["core/base.SentinelEntry.Exit"]
+
 end Sentinel.C15
